@@ -3,7 +3,7 @@ import numpy as np
 from ..runner import Acc, HarnessError
 from ..refmodel import Fmt, bin_image, hex_image, sign_magnitude, with_point
 from .. import alphabet as al
-from ..common import Fxp, fx, codes, flags, fmt_of, reset_class_state
+from ..common import warm, Fxp, fx, codes, flags, fmt_of, reset_class_state
 
 ID = 'C11'
 RULE = ("rendering cases = (format, code, rendering option) compared with Python's own format(code % 2**n, 'b') / '%X' / sign-magnitude numerals; "
@@ -73,14 +73,31 @@ def render_checks(acc, f, cs, part):
             eh = [['0x' + t for t in ex_h[:m // 2]], ['0x' + t for t in ex_h[m // 2:m]]]
             if g != e or h != eh:
                 bad('render', '2-d rendering differs: %r...' % (g[0][:2],), option='2d')
-            # a transposed / reversed view must render in logical order
-            xt = x2.T
-            gt = [[str(s) for s in row] for row in xt.bin()]
-            et = [[e[r][c] for r in range(2)] for c in range(m // 2)]
-            acc.transitions += 2
-            acc.evaluations += m
-            if gt != et:
-                bad('render', 'bin() of a transposed array is not in logical order: %r vs %r' % (gt[:2], et[:2]), option='2d_T')
+            # objects that are not C-contiguous must render in logical order, in every base
+            L = np.array(cs[:m], dtype=object if n >= 64 else np.int64).reshape(2, -1)
+            for layout in ('T', 'F', 'rev_rows', 'rev_cols', 'T_of_built_T'):
+                if layout == 'T':
+                    xl, logical = x2.T, L.T
+                elif layout == 'F':
+                    xl, logical = Fxp(np.asfortranarray(L), f.signed, n, f.n_frac, raw=True), L
+                elif layout == 'rev_rows':
+                    xl, logical = x2[::-1], L[::-1]
+                elif layout == 'rev_cols':
+                    xl, logical = x2[:, ::-1], L[:, ::-1]
+                else:
+                    xl, logical = Fxp(np.ascontiguousarray(L.T), f.signed, n, f.n_frac, raw=True).T, L
+                lc = [[int(c) for c in row] for row in logical.tolist()]
+                acc.transitions += 4
+                acc.evaluations += 4 * m
+                acc.dim('render_layout', layout, m)
+                got_l = ([[str(t) for t in row] for row in xl.bin()], [[str(t) for t in row] for row in xl.hex()],
+                         [[str(t) for t in row] for row in xl.base_repr(10)], [[str(t) for t in row] for row in xl.bin(frac_dot=True)])
+                exp_l = ([[bin_image(c, n) for c in row] for row in lc], [['0x' + hex_image(c, n) for c in row] for row in lc],
+                         [[sign_magnitude(c, 10) for c in row] for row in lc],
+                         [[with_point(bin_image(c, n), f.n_frac) for c in row] for row in lc] if 0 <= f.n_frac <= n else None)
+                for nm, g_, e_ in zip(('bin', 'hex', 'base_repr', 'bin_dot'), got_l, exp_l):
+                    if e_ is not None and g_ != e_:
+                        bad('render', '%s() of a 2-d object in layout %s is not in logical order: %r vs %r' % (nm, layout, g_[:2], e_[:2]), option='2d_' + layout)
         acc.outcome('rendered', len(cs))
     except Exception as e:
         acc.violation('exception', case, '%s rendering raised %r' % (f.dtype, e), {'part': part, 'aspect': 'render'})
@@ -91,14 +108,44 @@ def render_checks(acc, f, cs, part):
 PARSE_ROUTES = ('ctor', 'call', 'set_val', 'from_bin', 'from_bin_fn')
 
 
-def parse_one(route, f, s, raw, shape_like):
+BORN = ('fresh', 'int_resized', 'none_resized', 'like_derived', 'dtype_resized', 'used')
+
+
+def born(f, shape_like, how):
+    """an object of format f (holding zeros) that a string is then fed into: fresh, or reached through a history"""
+    kw = dict(signed=f.signed, n_word=f.n_word, n_frac=f.n_frac)
+    z = (np.zeros(shape_like, dtype=np.int64) if shape_like else 0)
+    if how == 'fresh':
+        return Fxp(np.zeros(shape_like) if shape_like else 0, **kw)
+    if how == 'int_resized':                    # born from integers without fraction bits, then given its fraction
+        x = Fxp(z, f.signed, f.n_word, 0)
+        x.resize(n_frac=f.n_frac)
+        return x
+    if how == 'none_resized':
+        x = Fxp(None, f.signed, f.n_word, 0)
+        x.resize(n_frac=f.n_frac)
+        x.set_val(z, raw=True)
+        return x
+    if how == 'like_derived':
+        t = Fxp(z, not f.signed, f.n_word + 1, 0)
+        return Fxp(z, like=t, signed=f.signed, n_word=f.n_word, n_frac=f.n_frac)
+    if how == 'dtype_resized':
+        x = Fxp(z, not f.signed, f.n_word + 3, 0)
+        x.resize(dtype=f.dtype)
+        return x
+    x = Fxp(np.zeros(shape_like) if shape_like else 0, **kw)       # 'used': read, rendered and operated on before
+    warm(x)
+    return x
+
+
+def parse_one(route, f, s, raw, shape_like, how='fresh'):
     """feed string(s) s into an object of format f by the route"""
     kw = dict(signed=f.signed, n_word=f.n_word, n_frac=f.n_frac)
     if route == 'ctor':
         return Fxp(s, raw=raw, **kw)
     if route == 'from_bin_fn':
         return fx.from_bin(s, raw=raw, **kw)
-    x = Fxp(np.zeros(shape_like) if shape_like else 0, **kw)
+    x = born(f, shape_like, how)
     if route == 'call':
         if raw:
             return None
@@ -177,18 +224,26 @@ def parse_checks(acc, f, cs, part):
                 for route in routes:
                     acc.evaluations += 1
                     acc.transitions += 1
-                    try:
-                        x = parse_one(route, f, strs[i], raw, ())
+                    for how in (BORN if route in ('call', 'set_val', 'from_bin') else BORN[:1]):
+                      try:
+                        x = parse_one(route, f, strs[i], raw, (), how)
                         if x is None:
                             continue
+                        acc.dim('parse_target', how)
+                        if how != 'fresh':
+                            xa = parse_one(route, f, [strs[i], strs[0]], raw, (2,), how)
+                            if codes(xa) != [c, cs[0]]:
+                                acc.violation('parse', dict(case, form=fname, route=route, raw=raw, shape='list2', codes=[c, cs[0]], born=how),
+                                              '%s: %r parsed by %s raw=%s into an object %s gives %s' % (f.dtype, [strs[i], strs[0]], route, raw, how, codes(xa)),
+                                              {'part': part, 'aspect': 'parse', 'route': route, 'shape': 'list2', 'form': fname, 'born': how})
                         if codes(x) != [c]:
-                            acc.violation('parse', dict(case, form=fname, route=route, raw=raw, shape='scalar', codes=[c]),
-                                          '%s: scalar %r (code %d) parsed by %s raw=%s gives %s' % (f.dtype, strs[i], c, route, raw, codes(x)),
-                                          {'part': part, 'aspect': 'parse', 'route': route, 'shape': 'scalar', 'form': fname})
-                    except Exception as e:
-                        acc.violation('exception', dict(case, form=fname, route=route, raw=raw, shape='scalar', codes=[c]),
-                                      '%s: scalar %r by %s raw=%s raised %r' % (f.dtype, strs[i], route, raw, e),
-                                      {'part': part, 'aspect': 'parse', 'route': route, 'shape': 'scalar', 'form': fname})
+                            acc.violation('parse', dict(case, form=fname, route=route, raw=raw, shape='scalar', codes=[c], born=how),
+                                          '%s: scalar %r (code %d) parsed by %s raw=%s into an object %s gives %s' % (f.dtype, strs[i], c, route, raw, how, codes(x)),
+                                          {'part': part, 'aspect': 'parse', 'route': route, 'shape': 'scalar', 'form': fname, 'born': how})
+                      except Exception as e:
+                        acc.violation('exception', dict(case, form=fname, route=route, raw=raw, shape='scalar', codes=[c], born=how),
+                                      '%s: scalar %r by %s raw=%s into an object %s raised %r' % (f.dtype, strs[i], route, raw, how, e),
+                                      {'part': part, 'aspect': 'parse', 'route': route, 'shape': 'scalar', 'form': fname, 'born': how})
 
 
 def interleaved_parse(acc, words, part):
